@@ -7,10 +7,10 @@
                             order-free: it determines the result up to the order of object keys
    C28_wf                 : what validation and serde_json_bytes guarantee (input field names and variable names
                             unique, JSON object keys unique, integers within [-2^63, 2^64))
-   Known_C28              : the decidable known classes
-        known_default_not_coerced s vars : some default value (of a variable of the operation or of an input
-                                           field of the schema) is not already in coerced form        (D17)
-        known_edge_int values            : the JSON values mention +-(2^53-1) or an integer >= 2^63 *)
+   known_default_not_coerced s vars : the decidable known class: some default value (of a variable of the
+                            operation or of an input field of the schema) is not already in coerced form (D17)
+   (the former second class edge_int — Float rejected +-(2^53-1), ID rejected integers in [2^63, 2^64) — was
+   repaired in the code: `<=` and `is_u64`; the model follows the repaired code, C28_iff no longer excludes it) *)
 From Coq Require Import ZArith String.
 From ApolloVerif Require Import Base.Chars Ast.Ast Schema.Model Run.Json Run.Coerce
   Run.CoerceSpec Run.CoerceProofs Run.CoerceTheorems.
@@ -18,11 +18,11 @@ Local Open Scope string_scope.
 
 (* coercion succeeds iff the specification's CoerceVariableValues succeeds, and its result is a result of the
    specification *)
-Theorem C28_iff : forall s vars values, C28_wf s vars values -> Known_C28 s vars values = false ->
+Theorem C28_iff : forall s vars values, C28_wf s vars values -> known_default_not_coerced s vars = false ->
   ((exists r, coerce_variable_values s vars values = CvOk r) <-> (exists r, SpecVars s vars values r)) /\
   (forall r, coerce_variable_values s vars values = CvOk r -> SpecVars s vars values r).
 Proof. exact c28_iff. Qed.
-Check C28_iff : forall s vars values, C28_wf s vars values -> Known_C28 s vars values = false ->
+Check C28_iff : forall s vars values, C28_wf s vars values -> known_default_not_coerced s vars = false ->
   ((exists r, coerce_variable_values s vars values = CvOk r) <-> (exists r, SpecVars s vars values r)) /\
   (forall r, coerce_variable_values s vars values = CvOk r -> SpecVars s vars values r).
 Print Assumptions C28_iff.
@@ -58,34 +58,52 @@ Check C28_conforms : forall s vars values r, C28_wf s vars values ->
   forall vd rv, In vd vars -> jmap_get (v_name vd) r = Some rv -> conforms_input s rv (v_ty vd) = true.
 Print Assumptions C28_conforms.
 
-(* The full statement (without the Known_C28 hypotheses) is false of the faithful model.
+(* The full statement (without the known_default_not_coerced hypothesis) is false of the faithful model.
    D17: default values are converted to JSON but never coerced (witness: ex_schema / ex_vars / {} of
    Run/CoerceTheorems.v, i.e. `query($a: [Int] = 1, $i: I = {y: 2})` with `input I {x: Int = 3, y: [Int]}`) *)
 Theorem C28_default_refuted : exists s vars values r,
-  C28_wf s vars values /\ known_edge_int values = false /\
+  C28_wf s vars values /\
   coerce_variable_values s vars values = CvOk r /\
   ~ SpecVars s vars values r /\
   (exists vd rv, In vd vars /\ jmap_get (v_name vd) r = Some rv /\ conforms_input s rv (v_ty vd) = false).
 Proof. exact c28_default_refuted. Qed.
 Check C28_default_refuted : exists s vars values r,
-  C28_wf s vars values /\ known_edge_int values = false /\
+  C28_wf s vars values /\
   coerce_variable_values s vars values = CvOk r /\
   ~ SpecVars s vars values r /\
   (exists vd rv, In vd vars /\ jmap_get (v_name vd) r = Some rv /\ conforms_input s rv (v_ty vd) = false).
 Print Assumptions C28_default_refuted.
 
-(* the boundary integers: the specification accepts +-(2^53-1) at Float and 2^63 at ID, the code rejects them *)
-Theorem C28_edge_refuted :
-  ex_spec_accepts "Float" j_max_safe_int /\ ex_spec_accepts "Float" (- j_max_safe_int) /\ ex_spec_accepts "ID" j_two63.
-Proof. exact c28_edge_refuted. Qed.
-Check C28_edge_refuted :
-  ex_spec_accepts "Float" j_max_safe_int /\ ex_spec_accepts "Float" (- j_max_safe_int) /\ ex_spec_accepts "ID" j_two63.
-Print Assumptions C28_edge_refuted.
+(* the boundary integers (the former known class edge_int): the specification accepts +-(2^53-1) at Float and
+   2^63, 2^64-1 at ID, and the code now accepts them unchanged (instances of C28_iff, kept as regression anchors) *)
+Theorem C28_edge_accepted :
+  ex_accepts "Float" j_max_safe_int /\ ex_accepts "Float" (- j_max_safe_int) /\
+  ex_accepts "ID" j_two63 /\ ex_accepts "ID" (j_two64 - 1).
+Proof. exact c28_edge_accepted. Qed.
+Check C28_edge_accepted :
+  ex_accepts "Float" j_max_safe_int /\ ex_accepts "Float" (- j_max_safe_int) /\
+  ex_accepts "ID" j_two63 /\ ex_accepts "ID" (j_two64 - 1).
+Print Assumptions C28_edge_accepted.
+
+(* the behaviour before the repair, kept as cv_scalar_ok_old: the scalar tests rejected these three values that
+   the specification accepts (the refuted witnesses of the former class), and the repair only accepts more *)
+Theorem C28_edge_old_refuted :
+  (SpecScalar rn_Float (JInt j_max_safe_int) /\ cv_scalar_ok_old rn_Float (JInt j_max_safe_int) = false) /\
+  (SpecScalar rn_Float (JInt (- j_max_safe_int)) /\ cv_scalar_ok_old rn_Float (JInt (- j_max_safe_int)) = false) /\
+  (SpecScalar rn_ID (JInt j_two63) /\ cv_scalar_ok_old rn_ID (JInt j_two63) = false) /\
+  (forall n v, cv_scalar_ok_old n v = true -> cv_scalar_ok n v = true).
+Proof. exact c28_edge_old_refuted. Qed.
+Check C28_edge_old_refuted :
+  (SpecScalar rn_Float (JInt j_max_safe_int) /\ cv_scalar_ok_old rn_Float (JInt j_max_safe_int) = false) /\
+  (SpecScalar rn_Float (JInt (- j_max_safe_int)) /\ cv_scalar_ok_old rn_Float (JInt (- j_max_safe_int)) = false) /\
+  (SpecScalar rn_ID (JInt j_two63) /\ cv_scalar_ok_old rn_ID (JInt j_two63) = false) /\
+  (forall n v, cv_scalar_ok_old n v = true -> cv_scalar_ok n v = true).
+Print Assumptions C28_edge_old_refuted.
 
 (* non-vacuity: a concrete input meeting the hypotheses of the theorems, outside the known classes:
    query($a: [Int] = [1], $i: I, $f: Float!, $u: ID) with {"i": {"y": 5}, "f": 7} *)
 Example C28_nonvacuous :
-  C28_wf ex_schema nv_vars nv_values /\ Known_C28 ex_schema nv_vars nv_values = false /\
+  C28_wf ex_schema nv_vars nv_values /\ known_default_not_coerced ex_schema nv_vars = false /\
   coerce_variable_values ex_schema nv_vars nv_values =
     CvOk [(ex_s "a", JArr [JInt 1]); (ex_s "i", JObj [(ex_s "y", JArr [JInt 5]); (ex_s "x", JInt 3)]);
           (ex_s "f", JInt 7)] /\
